@@ -249,13 +249,15 @@ PROPERTIES = {
     ),
     'C12': dict(
         category='other',      # two structural obligations; the behaviour across the connection is only executed
-        units=['wire', 'crypto'],
+        units=['wire', 'crypto', 'enum_limits'],
         canaries=['streams'],
         extra=[validate.abandoned_rpcs],
         scope='TWO STRUCTURAL FACTS PROVED, THE REST ONLY EXECUTED. Proved (Verus): in BiStreamRequestHandler::do_handle the service\'s answer is raced against the remote stopping the stream, and when the stop '
               'comes first the exchange ends at once with an error, nothing written, the service\'s future dropped with the frame that owns it (obligation placed in that arm of the select, by shape); a send half dropped '
               'before it was finished is RESET (SendStream::drop), which is how the remote learns that a caller went away. Executed on real networks (abandoned_rpcs): a remote handler that started is dropped within '
-              'milliseconds when the caller drops the future or times out; a future dropped before it is polled starts nothing; 40 abandoned RPCs against 4 concurrent streams leave later RPCs and an RPC in flight untouched.',
+              'milliseconds when the caller drops the future or times out; a future dropped before it is polled starts nothing; 40 abandoned RPCs against 4 concurrent streams leave later RPCs and an RPC in flight untouched; '
+              '12 RPCs abandoned while the whole service applies back-pressure are never served after the fact. BOUNDED (enum_limits::inflight_schedules): with the in-flight limiter installed, a request dropped at any point of '
+              'any schedule gives its slot back (per-request resources of a shipped middleware are released on cancellation).',
         unverified=['WHEN the remote notices (STOP_SENDING / RESET_STREAM delivery, quinn\'s flow control and stream-credit return): only executed, with a margin of a second',
                     'that dropping the caller\'s future drops both stream halves (Rust drop order of an async frame: not observable by either verifier)',
                     'abandonment while the response is being written; datagram loss during the reset'],
